@@ -405,6 +405,29 @@ impl World {
 
     /// calls that create nodes need `&mut self`: split_text puts the new node into the slot `new`
     pub fn exec_mut(&mut self, c: &J) -> J {
+        if c["op"] == "set_value" {
+            // Attr.value := "q": the attribute's children become one new Text node, which takes the pool slot `new`
+            use xml_dom::AttrMut;
+            let a = c["a"].as_u64().unwrap_or(0) as usize;
+            let slot = c["new"].as_u64().unwrap_or(0) as usize;
+            let at = match self.node(a) {
+                XmlNode::Attribute(x) => x.clone(),
+                _ => return json!({"panic": "harness: set_value on a non-attribute"}),
+            };
+            let at2 = at.clone();
+            return match guarded(move || at2.set_value("q")) {
+                Ok(Ok(())) => {
+                    if let Ok(Some(node)) = guarded(|| at.first_child()) {
+                        let id = node.id();
+                        self.nodes[slot] = Some(node);
+                        self.ids.insert((1, id), slot);
+                    }
+                    json!({"ok": 0})
+                }
+                Ok(Err(e)) => json!({"err": Self::err_name(&e)}),
+                Err(p) => json!({"panic": p}),
+            };
+        }
         if c["op"] != "split_text" {
             return self.exec(c);
         }
